@@ -142,7 +142,7 @@ Vecs == SetToSeq({{[ops |-> o, src |-> s, exp |-> Run(o, s)] : o \\in {{x \\in O
             for k, (op, e) in enumerate(zip(v["ops"], v["exp"])):
                 nh, ne = list(DiameterRequest.hop_by_hop_identifiers), list(DiameterRequest.end_to_end_identifiers)
                 d0 = src.draws
-                ids = (0x0A000000 + n, 0x0B000000 + n)
+                ids = (0x0A000000 + n, 0x0B000000 + n) if (n + k) % 4 else (0, 0)        # an explicit header may also carry zero identifiers
                 try:
                     with guard(10, "create"):
                         m = make(op, n + k, byname, rng, reqs, ids, last)
@@ -172,6 +172,25 @@ Vecs == SetToSeq({{[ops |-> o, src |-> s, exp |-> Run(o, s)] : o \\in {{x \\in O
                         break
             if len(rep.violations) >= 30:
                 break
+        # a long history: a value handed out more than a thousand requests ago is still taken
+        if len(rep.violations) < 30:
+            nlong = 1100
+            vals = [bytes([0x0C]) + i.to_bytes(3, "big") for i in range(2 * nlong + 4)]
+            src.script = list(vals[:2 * nlong]) + [vals[0], vals[2 * nlong], vals[1], vals[2 * nlong + 1]]
+            src.draws = 0
+            first = None
+            for i in range(nlong):
+                m = make("req", 3 * i if i % 2 else 3 * i + 1, byname, rng, reqs)
+                if i == 0:
+                    first = (m.header.hop_by_hop, m.header.end_to_end)
+            m = make("req", 0, byname, rng, reqs)
+            rep.case(("long-history",))
+            if first != (vals[0], vals[1]):
+                rep.violation(f"long history: the first request carries {first[0].hex()}/{first[1].hex()}, the source gave {vals[0].hex()}/{vals[1].hex()}", {"kind": "long-history"})
+            elif (m.header.hop_by_hop, m.header.end_to_end) != (vals[2 * nlong], vals[2 * nlong + 1]):
+                rep.violation(f"long history: after {nlong} requests the source repeats the identifiers of the first one; request {nlong + 1} carries "
+                              f"{m.header.hop_by_hop.hex()}/{m.header.end_to_end.hex()} (first request: {first[0].hex()}/{first[1].hex()}), specification "
+                              f"{vals[2 * nlong].hex()}/{vals[2 * nlong + 1].hex()} (redrawn)", {"kind": "long-history"})
     finally:
         base.os = saved_os
     rep.notes["sequential_vectors"] = len(vecs)
@@ -382,7 +401,7 @@ def run(rep):
 def replay(rep, path):
     r = json.load(open(path))["replay"]
     byname = dictx.by_name()
-    if r["kind"] == "sequential":
+    if r["kind"] in ("sequential", "long-history"):
         rep.notes["replay"] = "sequential histories are re-enumerated"
         check_sequential(rep, byname)
     else:
